@@ -220,6 +220,12 @@ def run(c):
     need(c, res, "states_middle_and_base_populated", "states_multi_table_level")
     selftest_replay(c, big, behs)
     selftest_trace(c, big, events)
+    # 5. one read of a compaction step's input tables fails (storage fault): the step either reports the error (dkv.DB
+    #    then applies nothing) or its change set preserves the contents
+    resf, _, _ = simulate_and_replay(c, big, 300 if quick else 3000, c.seed * 1000 + 2,
+                                     "simulated histories, one failing read in 60% of the compaction steps",
+                                     config=dict(ReadFaultPct=60, ReadFaultMaxN=14))
+    need(c, resf, "compactions_with_a_read_fault", "read_fault_reported_as_error")
     if not quick:
         for i, extra in enumerate([dict(NKeys=5, NLevels=5, MaxFlush=8, MaxCompact=16, MaxLen=80),
                                    dict(NKeys=4, NLevels=3, BigKey=3, BigLen=9000, MaxFlush=7, MaxCompact=12, MaxLen=70),
